@@ -10,6 +10,7 @@ import Driver.Tree
 import Driver.Toc
 import Driver.Latex
 import Driver.Wrap
+import Driver.State
 open Lean
 
 def dispatch (op : String) (j : Json) : Except String Json :=
@@ -26,6 +27,7 @@ def dispatch (op : String) (j : Json) : Except String Json :=
   | "md.fill" => Driver.Wrap.fillOp j
   | "md.prefix" => Driver.Wrap.prefixOp j
   | "md.budget" => Driver.Wrap.budgetOp j
+  | "state.run" => Driver.State.runOp j
   | "ping" => pure (Json.str "pong")
   | _ => throw s!"unknown op {op}"
 
